@@ -543,7 +543,7 @@ fn run(ctx: &mut Ctx) {
         let _ = std::fs::remove_dir_all(&art);
     }
     // generated projects and their mutants
-    let np = tier.pick(96u64, 2_400u64) / ctx.nshards as u64 + 1;
+    let np = tier.pickn(96u64, 2_400u64) / ctx.nshards as u64 + 1;
     for i in 0..np {
         let mut rng = Rng::keyed(seed, "c14-proj", ctx.shard as u64, i);
         let mut proj = Project::generate(&mut rng, 5);
